@@ -895,7 +895,7 @@ def check_C08(ctx):
         pool_ = [x for x in fired.get(pname, []) if x in cand] or cand
         hs = rng.sample(pool_, min(len(pool_), 5 if ctx.quick else 10))
         # hooks whose payload or placement depends on instrumenter-side stacks / on other rewrites: always compared
-        for must in ("_break", "_continue", "exit_for", "exit_while", "_return", "function_exit", "exception", "read_identifier", "pre_call"):
+        for must in ("_break", "_continue", "exit_for", "exit_while", "_return", "function_exit", "exception", "read_identifier", "pre_call", "add"):
             if must in pool_ and must not in hs and (pname in ("nested", "witness") or rng.random() < 0.4):
                 hs.append(must)
         for hk in hs:
